@@ -1378,6 +1378,6 @@ impl Check for C08 {
         600.0
     }
     fn technique(&self) -> &'static str {
-        "controlled-scheduler enumeration of thread interleavings at hooked synchronisation points on the real server + online wait-for-graph deadlock monitor; seeded-delay stress"
+        "controlled-scheduler enumeration of thread interleavings at hooked synchronisation points on the real server + online wait-for-graph deadlock monitor; seeded-delay stress; request bursts against the shipped binary; stalls decided by OS-level thread-state certificates"
     }
 }
